@@ -153,6 +153,9 @@ pub struct WorkerOutput {
     /// paths the calls looked for and did not find ("$RUN/..." when inside the sandbox)
     #[serde(default)]
     pub probed_missing: Vec<String>,
+    /// environment variables the calls asked for and that were not set
+    #[serde(default)]
+    pub probed_env: Vec<String>,
     pub log: Vec<String>,
 }
 
@@ -401,6 +404,7 @@ fn run_process(input: &WorkerInput) -> WorkerOutput {
     let unreaped = Arc::new(AtomicU64::new(0));
     let helper_threads = Arc::new(AtomicU64::new(0));
     let probes = Arc::new(Mutex::new(Vec::<String>::new()));
+    let env_probes = Arc::new(Mutex::new(Vec::<String>::new()));
     let return_all = input.return_all_outcomes;
 
     let mut handles = Vec::new();
@@ -417,6 +421,7 @@ fn run_process(input: &WorkerInput) -> WorkerOutput {
         let unreaped = unreaped.clone();
         let helper_threads = helper_threads.clone();
         let probes = probes.clone();
+        let env_probes = env_probes.clone();
         let handle = std::thread::Builder::new()
             .stack_size(16 << 20)
             .spawn(move || {
@@ -453,6 +458,7 @@ fn run_process(input: &WorkerInput) -> WorkerOutput {
                         backend.formatter_fault_in_this_call.store(false, Ordering::Relaxed);
                         sched.set_in_call(tid, true);
                         seams::set_file_probe_recording(true);
+                        seams::set_env_probe_recording(true);
                         seams::set_alloc_points_active(true);
                         let r = std::panic::catch_unwind(std::panic::AssertUnwindSafe(|| {
                             corpus::run_job(&sources[pool_idx], job.include_path.as_deref(), job.options)
@@ -460,6 +466,16 @@ fn run_process(input: &WorkerInput) -> WorkerOutput {
                         seams::set_alloc_points_active(false);
                         let looked_for = seams::take_file_probes();
                         seams::set_file_probe_recording(false);
+                        let asked_for = seams::take_env_probes();
+                        seams::set_env_probe_recording(false);
+                        if !asked_for.is_empty() {
+                            let mut all = env_probes.lock().unwrap();
+                            for name in asked_for {
+                                if all.len() < 32 && !all.contains(&name) {
+                                    all.push(name);
+                                }
+                            }
+                        }
                         if !looked_for.is_empty() {
                             let mut all = probes.lock().unwrap();
                             for path in looked_for {
@@ -631,6 +647,10 @@ fn run_process(input: &WorkerInput) -> WorkerOutput {
             })
             .collect()
     };
+    let probed_env: Vec<String> = {
+        let all = env_probes.lock().unwrap();
+        all.clone()
+    };
     let abort = if !harness_errors.is_empty() {
         Some(format!("harness: {}", harness_errors.join("; ")))
     } else {
@@ -662,6 +682,7 @@ fn run_process(input: &WorkerInput) -> WorkerOutput {
         fds_delta,
         threads_left_running,
         probed_missing,
+        probed_env,
         log: report.log,
     }
 }
@@ -1148,6 +1169,7 @@ pub struct RunStats {
     pub processes_with_more_open_fds_after_the_calls: u64,
     pub processes_with_threads_left_running: u64,
     pub file_probes_recorded: u64,
+    pub env_probes_recorded: u64,
     pub plans_rerun_with_planted_files: u64,
     pub alloc_points: u64,
     pub virtual_sleeps: u64,
@@ -1169,6 +1191,8 @@ pub struct RunResult {
     pub logs: Vec<Vec<String>>,
     /// per process: paths the calls looked for and did not find
     pub probed: Vec<Vec<String>>,
+    /// per process: environment variables the calls asked for and that were not set
+    pub probed_env: Vec<Vec<String>>,
 }
 
 fn first_difference(a: &str, b: &str) -> String {
@@ -1200,6 +1224,7 @@ fn execute(scratch: &Scratch, golden: &Golden, plan: &RunPlan, record: bool) -> 
     let mut logs = Vec::new();
     let mut jobs_seen_in_processes: Vec<HashSet<usize>> = Vec::new();
     let mut probed = Vec::new();
+    let mut probed_env = Vec::new();
     // One sandbox per run, shared by the run's processes (what one leaves behind, the next finds).
     let sandbox = scratch.sandbox()?;
     // Simulated processes run one after the other: the only state they can share is the file
@@ -1220,6 +1245,8 @@ fn execute(scratch: &Scratch, golden: &Golden, plan: &RunPlan, record: bool) -> 
         hasher.u64(out.log_hash);
         stats.file_probes_recorded += out.probed_missing.len() as u64;
         probed.push(out.probed_missing.clone());
+        stats.env_probes_recorded += out.probed_env.len() as u64;
+        probed_env.push(out.probed_env.clone());
         stats.processes += 1;
         stats.threads += process.threads.len() as u64;
         stats.steps += out.steps;
@@ -1386,6 +1413,7 @@ fn execute(scratch: &Scratch, golden: &Golden, plan: &RunPlan, record: bool) -> 
         stats,
         logs,
         probed,
+        probed_env,
     })
 }
 
@@ -1563,6 +1591,8 @@ struct Tally {
     failures: Vec<(u64, RunPlan, Divergence)>,
     samples: Vec<serde_json::Value>,
     policies: BTreeMap<String, u64>,
+    /// names of the files and variables the calls asked for in vain
+    probe_names: std::collections::BTreeSet<String>,
 }
 
 fn add_stats(a: &mut RunStats, b: &RunStats) {
@@ -1583,6 +1613,7 @@ fn add_stats(a: &mut RunStats, b: &RunStats) {
     a.processes_with_more_open_fds_after_the_calls += b.processes_with_more_open_fds_after_the_calls;
     a.processes_with_threads_left_running += b.processes_with_threads_left_running;
     a.file_probes_recorded += b.file_probes_recorded;
+    a.env_probes_recorded += b.env_probes_recorded;
     a.plans_rerun_with_planted_files += b.plans_rerun_with_planted_files;
     a.alloc_points += b.alloc_points;
     a.virtual_sleeps += b.virtual_sleeps;
@@ -1651,6 +1682,14 @@ fn run_batch(scratch: &Scratch, golden: &Golden, seed: u64, n: u64) -> Result<Ta
                                 }));
                             }
                             let clean = r.divergences.is_empty();
+                            for name in r.probed_env.iter().flatten() {
+                                local.probe_names.insert(format!("env:{name}"));
+                            }
+                            for path in r.probed.iter().flatten() {
+                                if local.probe_names.len() < 200 {
+                                    local.probe_names.insert(format!("file:{path}"));
+                                }
+                            }
                             for d in r.divergences {
                                 if local.failures.len() < 16 {
                                     local.failures.push((i, plan.clone(), d));
@@ -1659,16 +1698,29 @@ fn run_batch(scratch: &Scratch, golden: &Golden, seed: u64, n: u64) -> Result<Ta
                             // The calls looked for files that do not exist: run the same plan with
                             // those files present. If the answer changes, the file is an input.
                             let plantable = |p: &Vec<String>| p.iter().any(|f| f.starts_with("$RUN/"));
-                            if clean && r.probed.iter().any(plantable) {
+                            if clean && (r.probed.iter().any(plantable) || r.probed_env.iter().any(|e| !e.is_empty())) {
                                 let mut planted = plan.clone();
                                 for (process, looked_for) in planted.processes.iter_mut().zip(&r.probed) {
                                     process.plant_files = looked_for.iter().filter(|f| f.starts_with("$RUN/")).cloned().collect();
+                                }
+                                // ... and with the variables they asked for set
+                                for (process, asked_for) in planted.processes.iter_mut().zip(&r.probed_env) {
+                                    for name in asked_for {
+                                        if !process.env.iter().any(|(k, _)| k == name) {
+                                            process.env.push((name.clone(), "1".to_string()));
+                                        }
+                                    }
                                 }
                                 match execute(scratch, golden, &planted, false) {
                                     Ok(r2) => {
                                         local.stats.plans_rerun_with_planted_files += 1;
                                         for mut d in r2.divergences {
-                                            d.detail = format!("with the files the calls looked for present ({:?}): {}", planted.processes.iter().flat_map(|p| p.plant_files.iter()).take(4).collect::<Vec<_>>(), d.detail);
+                                            d.detail = format!(
+                                                "with the files the calls looked for present ({:?}) and the variables they asked for set ({:?}): {}",
+                                                planted.processes.iter().flat_map(|p| p.plant_files.iter()).take(4).collect::<Vec<_>>(),
+                                                r.probed_env.iter().flatten().take(4).collect::<Vec<_>>(),
+                                                d.detail
+                                            );
                                             if local.failures.len() < 16 {
                                                 local.failures.push((i, planted.clone(), d));
                                             }
@@ -1694,6 +1746,7 @@ fn run_batch(scratch: &Scratch, golden: &Golden, seed: u64, n: u64) -> Result<Ta
                 t.distinct_interleaved_logs.extend(local.distinct_interleaved_logs);
                 t.failures.extend(local.failures);
                 t.samples.extend(local.samples);
+                t.probe_names.extend(local.probe_names);
                 for (k, v) in local.policies {
                     *t.policies.entry(k).or_default() += v;
                 }
@@ -1910,7 +1963,9 @@ pub fn main(tier: Tier) -> i32 {
         "processes_with_more_open_fds_after_the_calls_informational": s.processes_with_more_open_fds_after_the_calls,
         "processes_with_threads_left_running_informational": s.processes_with_threads_left_running,
         "missing_files_the_calls_looked_for": s.file_probes_recorded,
+        "unset_environment_variables_the_calls_asked_for": s.env_probes_recorded,
         "plans_rerun_with_those_files_planted": s.plans_rerun_with_planted_files,
+        "names_asked_for_in_vain": tally.probe_names.iter().take(40).collect::<Vec<_>>(),
         "stall_handoffs_baton_holder_blocked_outside_seams": s.stall_handoffs,
         "determinism_pairs_checked": det_n,
         "known_findings_hit": known_hits,
